@@ -140,6 +140,7 @@ def run(v, tier, seed):
     pnname, private_ok = vlib.make_with_fallback("plain", "pn")
     B = Budget(10)
     pn = vlib.binpath("plain", pnname)
+    vlib.make("plain", "pnsrv")
     W = lambda n: vlib.scratch("C20", n)
     tot = collections.Counter(); samples = []; mc_notes = []; t_notes = {}
     quick = (tier == "quick")
@@ -229,6 +230,14 @@ def run(v, tier, seed):
         acc, maxline, nlines, wall = validate("rnd%d" % shard, tr, N, maxT, 999)
         return rows, acc, maxline, nlines, tr, round(t1 - t0, 1), round(wall, 1), ntraced
 
+    # ---- 4: the same clauses for the nodes a real ReflectServer manages (sessions, factories, their children), real clock ----------
+    def server_stage(k, activity_ms):
+        rep = W("srv_%d.ndjson" % k)
+        rc, out, err = vlib.run([vlib.binpath("plain", "pnsrv"), "run", str(seed * 97 + k), str(activity_ms), rep], timeout=120)
+        if rc in (66, 67) or (rc < 0 and rc != -999): return [{"seed": seed * 97 + k, "violations": ["the server process died (rc=%s) while pulsing its nodes: %s" % (rc, err[-600:])]}, {"summary": True}]
+        if rc != 0: raise vlib.MachineryError("pnsrv failed rc=%s: %s %s" % (rc, out[-500:], err[-1500:]))
+        return vlib.read_ndjson(rep)
+
     def vacuity_f20():
         # the model without the F20 repair (no re-ask loop) must violate Refines: clause P6 of PulseAbs is not vacuous
         name = impl_cfg("gen_Reach_F20.cfg", 3, 1, 1, '{"inval"}', '{"attach", "inval", "tick"}', mut="F20", invs=["Refines"])
@@ -269,6 +278,7 @@ def run(v, tier, seed):
         gens = gens + [("D2", 2, 1)]
         f_vac = ex.submit(vacuity_f20)
         f_rnd = [ex.submit(random_histories, *r) for r in rnd]
+        f_srv = [ex.submit(server_stage, k, 1000 if quick else 3000) for k in range(2 if quick else 6)]
         f_abs = ex.submit(abs_mc, 3, 1, 0 if quick else 1, 2)
         f_mc = []
         if not quick:
@@ -333,6 +343,15 @@ def run(v, tier, seed):
             elif not v.violations:
                 ln = open(tr).read().splitlines()[max(0, (maxline or 1) - 6):(maxline or 1)]
                 v.violation("replayed behaviours (%s): the code's events are not a behaviour of PulseAbs: first unexplained line %s of %s" % (tag, maxline, tr), {"trace": tr, "line": maxline, "context": ln}, tag="rtrace" + tag)
+        for k, f in enumerate(f_srv):
+            rows = f.result()
+            summ = [x for x in rows if x.get("summary")][0]
+            for kk in ("nodes", "asks", "pulses", "timers_fired", "retimed_from_outside", "loop_slices"): tot["s_" + kk] += summ.get(kk, 0)
+            tot["s_runs"] += 1; tot["s_max_late_ms"] = max(tot["s_max_late_ms"], summ.get("max_late_ms", 0))
+            if any(p.get("fired", 0) == 0 and not p.get("gone") for p in summ.get("per_node", [])) and not any(x.get("violations") for x in rows):
+                raise vlib.MachineryError("server stage: a node never fired and no violation was reported")
+            for x in rows:
+                if x.get("violations"): v.violation("ReflectServer-managed pulse nodes (real clock): " + "; ".join(x["violations"][:3]), x, tag="server%d" % k)
         ra = f_abs.result()
         tot["states"] += ra.distinct; tot["transitions"] += ra.generated
         mc_notes.append({"instance": "PulseAbs standalone", "distinct": ra.distinct, "generated": ra.generated, "tlc_wall_s": round(ra.wall, 1)})
@@ -356,6 +375,8 @@ def run(v, tier, seed):
            "evaluations": tot["behaviours"] + tot["r_histories"], "distinct_nontrivial": tot["followed"] + tot["r_distinct_histories"],
            "rule": "behaviours = greedy path cover of EVERY transition TLC generated for PulseImpl (instances listed in model_runs); distinct by construction (each adds an uncovered transition), "
                    "non-trivial = followed to the end with every event and every private-state projection equal to the specification's; random histories (300 operations on 6 nodes, monitor on all, TLC on a subset): distinct operation sequences",
+           "server_stage_runs": tot["s_runs"], "server_stage_nodes_per_run": tot["s_nodes"] // max(1, tot["s_runs"]), "server_stage_GetPulseTime_calls": tot["s_asks"], "server_stage_Pulse_calls": tot["s_pulses"],
+           "server_stage_timers_fired": tot["s_timers_fired"], "server_stage_retimed_from_outside": tot["s_retimed_from_outside"], "server_stage_max_lateness_ms": tot["s_max_late_ms"],
            "private_state_available": private_ok,
            "exhaustive": True, "model_runs": mc_notes, "timing": t_notes, "samples": samples[:5]}
     assumptions = ["single-threaded use, as the library requires (PulseNode is not thread safe)",
@@ -363,6 +384,7 @@ def run(v, tier, seed):
                    "fewer than 8 self-invalidations per recalculation (the repaired GetPulseTimeAux re-asks at most 8 times); nested calls per cycle: <= 2 in the model, <= 3 in random histories",
                    "callbacks do not destroy nodes; a callback detaches only itself or its own children and attaches only parentless nodes",
                    "Either-clauses of PulseAbs where PulseNode.h is silent: a node detached during a sweep / recalculation may still be called back in it; after a recalculation with nested calls the reported time may be earlier than the minimum (never later)"]
+    assumptions.append("server-level stage: real clock; a timer counts as lost only when it is still pending 2.5 s and 30 event-loop slices after its time (lateness is not judged)")
     if not private_ok: assumptions.append("the harness was built WITHOUT access to PulseNode's private members (they no longer compile): the state comparison covers parent and scheduled time only (public API), list well-formedness of the real nodes was not checked; all property-level oracles ran")
     return "model_checking", cov, assumptions
 
